@@ -32,13 +32,13 @@ def spec_check(ctx, reqs, impl):
         for i, (r, a) in enumerate(zip(reqs, impl)):
             parts = r.split(" | ")
             kind = parts[0]
-            if kind == "conjall":
+            if kind in ("conjall", "conjs"):
                 line = [r, a, flags.get(parts[1], "missing")]
                 if parts[1] in mats:
                     line.append(mats[parts[1]])
             elif kind == "conj":
                 line = [r, a, flags.get(parts[1], "missing")]
-            elif kind == "circ":
+            elif kind in ("circ", "hist"):
                 line = [r, a]
             else:
                 continue
@@ -69,8 +69,10 @@ def nontrivial(r, a):
     k = r.split(" ", 1)[0]
     if k in ("conjall", "conjfs"):
         return " ; ok " in a          # a claiming gate whose rule was actually dumped
-    if k == "circ":
-        return "claims t" in a or "claims f" in a     # at least one gate decides the route
+    if k == "conjs":
+        return "ok " in a
+    if k in ("circ", "hist"):
+        return "claims t" in a or "claims f" in a or "claims -" in a     # at least one building call
     return k == "conj"
 
 
@@ -102,7 +104,13 @@ SPEC = {
             "no claim => every string and every wrong-length slice is refused; is_stabilizer_circuit = conjunction of the claims; "
             "stabilizer representation only if all claim; a run routed to the tableau never ends in NotAStabilizer. "
             "Non-trivial = a conjall/conjfs line with at least one accepted string, a wrong-length conj line, a circuit with at "
-            "least one gate; distinct = distinct request line.",
+            "least one gate; distinct = distinct request line. "
+            "(6) wide composites on 5 and 6 qubits whose 2nd/3rd sub-gate is itself a gate on >= 5 qubits (nested composite, Kronecker "
+            "tree, loop) placed after sign-flipping gates; all weight-1 and weight-2 strings plus 48 (quick) / 256 (thorough) random "
+            "strings; (B) from the 32x32 / 64x64 matrix(): M M^H = 1 and M P = +-P' M. (7) building histories on ONE circuit object: "
+            "is_stabilizer_circuit() after Circuit::new and after every building call, optionally one execute in between, then "
+            "execute; in half of the histories every earlier gate claims and the LAST call adds a conditional gate that does not; "
+            "(A) vs the model's conjunction over the prefix, (B) vs the conjunction of the implementation's own claims.",
     "exhaustive": False,
 }
 
